@@ -103,6 +103,17 @@ def gen(tier, rng):
     for rows in range(1, 4):
         for cols in range(1, 4):
             yield sx([16, 8, rows, cols])
+    # 10/11. record-container collection with boundary sizes
+    big = [0, 1, 2, 3, 2 ** 32, 2 ** 63, 2 ** 63 + 1, MAXU - 1, MAXU]
+    for rows in big:
+        for cols in big:
+            for n in (0, 1, 2, 3, 6):
+                yield sx([16, 10, rows, cols, n])
+    for D in range(0, 4):
+        for lens in itertools.product([0, 1, 2, 2 ** 63 + 1, MAXU], repeat=D):
+            for names in ([list(range(D))] + ([[0] * D] if D > 1 else [])):
+                for n in (0, 1, 2, 4):
+                    yield sx([16, 11, [[a, b] for a, b in zip(names, lens)], n])
     # 9. checked access directly on a Matrix with the boundary alphabet (and overflow-prone
     #    rows such as ceil(2^64 / columns)) in both positions
     for rows, cols in ((1, 1), (1, 3), (2, 2), (2, 3), (3, 2), (4, 4), (3, 5)):
